@@ -638,11 +638,11 @@ Section DecSafe.
   Proof.
     unfold dec_body. cbv zeta.
     assert (Hmain: leaves (R sp ae sfun)
-                     (Mark (match rs with
-                            | Some len => dispatch c rec lf sp acc len sfun
-                            | None => let! t := read_tag lf in let! len := read_length c in dispatch c rec lf sp (t :: acc) len sfun
-                            end))).
-    { cbn [leaves]. destruct rs as [len|]; [apply leaves_dispatch|].
+                     (match rs with
+                      | Some len => dispatch c rec lf sp acc len sfun
+                      | None => Mark (let! t := read_tag lf in let! len := read_length c in dispatch c rec lf sp (t :: acc) len sfun)
+                      end)).
+    { destruct rs as [len|]; [apply leaves_dispatch|]. cbn [leaves].
       apply leaves_bind_any; [apply leaves_read_tag|]. intros t.
       apply leaves_bind_any; [apply leaves_read_length|]. intros len. apply leaves_dispatch. }
     destruct (ae && support_indef c)%bool eqn:Eae; [|exact Hmain].
